@@ -29,7 +29,7 @@ RULE = ("random problems (p 1..3, q 0..2, jitter, explicit t_ref != min t in a t
 
 
 def plan(ctx):
-    return [("row", i) for i in range(160 if ctx.thorough else 24)]
+    return [("row", i) for i in range(160 if ctx.thorough else 32)]
 
 
 def ln_normal(x, m, var):
